@@ -96,6 +96,35 @@ def _absprom(out):
     return n, skipped
 
 
+def _absast(out):
+    """replay the event-level asset model (Abs/Assets.v) on every real trace, once per (kind, uuid)
+    that some `addasset` operation of the scenario names"""
+    import os, re
+    from .. import core
+    n = skipped = 0
+    if not os.path.exists(core.DRIVER):
+        return 0, 0
+    for r in out['results']:
+        if not r['ok'] or 'noreplay' in r['name']:
+            continue
+        try:
+            text = open(r['trace_path']).read()
+        except OSError:
+            continue
+        keys = sorted(set(re.findall(r'^OP \d+ addasset (\d) (\d+) \d+$', text, re.M)))
+        for (k, a) in keys:
+            rc, o = core.run([core.DRIVER, 'absast', r['trace_path'], k, a], timeout=120)
+            n += 1
+            if 'ABSSKIP' in o:
+                skipped += 1
+            for l in o.split('\n'):
+                if l.startswith('DIFF'):
+                    out['diffs'].append('%s [asset model, kind %s id %s]: %s' % (r['name'], k, a, l[:400]))
+            if rc not in (0, 1):
+                out['diffs'].append('%s: asset-model replay failed: %s' % (r['name'], o[-200:]))
+    return n, skipped
+
+
 def _tier(ctx, quick, thorough):
     return quick if ctx['tier'] == 'quick' else thorough
 
@@ -294,6 +323,9 @@ def run_c06(ctx):
     def orc(tr, origin):
         return oracles.c06_assets(tr, origin, metas.get(origin['name'], {}))
     out = pc.run_scenarios('C06', ctx, jobs, [orc], nontrivial=pc.received_kinds)
+    nrep, nskip = _absast(out)
+    out['opstats']['asset_model_replays'] = nrep
+    out['opstats']['asset_model_replays_outside_premises'] = nskip
     return pc.make_result('C06', ctx, out, 'frames of asset histories (materials inline, meshes/images/audio over the real HTTP endpoint), insertions and overwrites from arbitrary peers, per-peer switches; non-trivial = distinct (scenario, receiver, kind, asset) received',
                           assumptions=['download threads, sockets, ureq are outside the model: a finished download is an oracle event (partial)'])
 
